@@ -4,8 +4,9 @@
   In the code every virtual process is a handle `VirtualSystem { state: Rc<RefCell<SystemState>>, process_id }` on
   ONE `SystemState`; `SystemState::processes : BTreeMap<Pid, Process>` holds the per-process state of all of
   them.  `Fork/Model.lean` models the process state of a shell *by value* (`Env.system : Proc`).  This file
-  models the shared table itself and the system calls the property's mutators reach — each one a transcription
-  of the `impl … for VirtualSystem` method and of the `Process` methods it calls, error branches included —
+  models the shared table itself; the system calls the property's mutators reach (`Call`, `Call.runT`: each one a
+  transcription of the `impl … for VirtualSystem` method and of the `Process` methods it calls, error branches
+  included) live in `Fork/Model.lean` since wave 3, because the shell-level mutators are built from them —
   so that "a process can only change its own entry" (`exec_frame`, `interleaving_isolated` in Theorems.lean)
   is a statement about the table, for every schedule of calls of any number of processes.
 
